@@ -23,17 +23,19 @@ def RescObj.run (o : RescObj α) : List (Op α) → List (Ans α)
   | [] => []
   | op :: ops => (o.step op).2 :: RescObj.run (o.step op).1 ops
 
-/-- the reference: a fresh object is built from the current tables for every query -/
-def rescSpecRun (t : Tables α) (bps : List Nat) : List (Op α) → List (Ans α)
+/-- the reference: a fresh object is built from the current tables for every query; `dv`, `d2v` =
+the variables of the last first / second order derivative asked since the last update -/
+def rescSpecRun (t : Tables α) (bps : List Nat) (dv d2v : String) : List (Op α) → List (Ans α)
   | [] => []
-  | op :: ops => rescSpec (nextTab t op) (nextBps bps op) op :: rescSpecRun (nextTab t op) (nextBps bps op) ops
+  | op :: ops => rescSpec (nextTab t op) (nextBps bps op) dv d2v op
+      :: rescSpecRun (nextTab t op) (nextBps bps op) (nextDv dv d2v op) (nextD2v d2v op) ops
 
 /-- every cached field holds what `compute…_` would give for the current tables and break points -/
 def RescObj.Consistent (o : RescObj α) : Prop :=
   o.fw = rescForward o.tab.p o.tab.e0 (mkSites o.tab.es o.bps)
   ∧ (o.backUpToDate = true → o.back = rescBackward o.tab.p o.tab.es o.fw.scales o.bps)
   ∧ (o.dVar ≠ "" → o.dfw = rescDForward o.tab.p o.tab.e0 o.tab.es (o.tab.dE o.dVar).1 (o.tab.dE o.dVar).2 o.bps o.fw)
-  ∧ (o.d2Var ≠ "" → o.d2LogLik = rescD2Forward o.tab.p o.tab.e0 o.tab.es (o.tab.dE o.d2Var).1 (o.tab.dE o.d2Var).2
+  ∧ (o.d2Var ≠ "" → o.d2fw = rescD2Forward o.tab.p o.tab.e0 o.tab.es (o.tab.dE o.d2Var).1 (o.tab.dE o.d2Var).2
         (o.tab.d2E o.d2Var).1 (o.tab.d2E o.d2Var).2 o.bps o.fw
         (rescDForward o.tab.p o.tab.e0 o.tab.es (o.tab.dE o.d2Var).1 (o.tab.dE o.d2Var).2 o.bps o.fw))
 
@@ -45,7 +47,7 @@ theorem rescCompute_some (t : Tables α) (bps : List Nat) (fw : RescFwd α) (h :
   · cases h
 
 theorem RescObj.build_consistent (t : Tables α) (o : RescObj α) (h : RescObj.build t = some o) :
-    o.Consistent ∧ o.tab = t ∧ o.bps = [] := by
+    o.Consistent ∧ o.tab = t ∧ o.bps = [] ∧ o.dVar = "" ∧ o.d2Var = "" := by
   unfold RescObj.build at h
   cases hc : rescCompute t [] with
   | none => rw [hc] at h; cases h
@@ -53,12 +55,33 @@ theorem RescObj.build_consistent (t : Tables α) (o : RescObj α) (h : RescObj.b
     rw [hc] at h
     have := Option.some.inj h
     subst this
-    exact ⟨⟨rescCompute_some t [] fw hc, by simp, by simp, by simp⟩, rfl, rfl⟩
+    exact ⟨⟨rescCompute_some t [] fw hc, by simp, by simp, by simp⟩, rfl, rfl, rfl, rfl⟩
+
+theorem RescObj.refreshBack_spec (o : RescObj α) (hc : o.Consistent) :
+    o.refreshBack.Consistent ∧ o.refreshBack.tab = o.tab ∧ o.refreshBack.bps = o.bps
+      ∧ o.refreshBack.dVar = o.dVar ∧ o.refreshBack.d2Var = o.d2Var
+      ∧ posteriorOf o.refreshBack.fw.lik o.refreshBack.back = rescPosterior o.tab.p o.tab.e0 o.tab.es o.bps := by
+  obtain ⟨h1, h2, h3, h4⟩ := hc
+  unfold RescObj.refreshBack
+  by_cases hb : o.backUpToDate = true
+  · simp only [hb, if_true]
+    refine ⟨⟨h1, h2, h3, h4⟩, (by first | rfl | trivial), (by first | rfl | trivial), (by first | rfl | trivial), (by first | rfl | trivial), ?_⟩
+    rw [h2 hb, h1]; rfl
+  · simp only [hb, if_false, Bool.false_eq_true]
+    refine ⟨⟨h1, fun _ => rfl, h3, h4⟩, (by first | rfl | trivial), (by first | rfl | trivial), (by first | rfl | trivial), (by first | rfl | trivial), ?_⟩
+    simp only [rescPosterior]; rw [h1]
+
+/-- the precondition of the per-site derivative accessors on the object -/
+def namesOkAt (dv d2v : String) : Op α → Prop
+  | .dSite _ => dv ≠ ""
+  | .d2Site _ => dv ≠ "" ∧ d2v ≠ ""
+  | _ => True
 
 theorem RescObj.step_spec (o : RescObj α) (hc : o.Consistent) (op : Op α)
-    (hne : (o.step op).2 ≠ .exc) (hvar : op ≠ .d1 "" ∧ op ≠ .d2 "") :
+    (hne : (o.step op).2 ≠ .exc) (hvar : op ≠ .d1 "" ∧ op ≠ .d2 "") (hnm : namesOkAt o.dVar o.d2Var op) :
     (o.step op).1.Consistent ∧ (o.step op).1.tab = nextTab o.tab op ∧ (o.step op).1.bps = nextBps o.bps op
-      ∧ (o.step op).2 = rescSpec (nextTab o.tab op) (nextBps o.bps op) op := by
+      ∧ (o.step op).1.dVar = nextDv o.dVar o.d2Var op ∧ (o.step op).1.d2Var = nextD2v o.d2Var op
+      ∧ (o.step op).2 = rescSpec (nextTab o.tab op) (nextBps o.bps op) o.dVar o.d2Var op := by
   obtain ⟨h1, h2, h3, h4⟩ := hc
   cases op with
   | setTables t =>
@@ -67,47 +90,74 @@ theorem RescObj.step_spec (o : RescObj α) (hc : o.Consistent) (op : Op α)
     | none => rw [hcmp] at hne; exact absurd rfl hne
     | some fw =>
       have hfw := rescCompute_some t o.bps fw hcmp
-      simp only [nextTab, nextBps, rescSpec]
-      refine ⟨⟨hfw, by simp, by simp, by simp⟩, (by first | rfl | trivial), (by first | rfl | trivial), by rw [hfw]⟩
+      simp only [nextTab, nextBps, nextDv, nextD2v, rescSpec]
+      refine ⟨⟨hfw, by simp, by simp, by simp⟩, (by first | rfl | trivial), (by first | rfl | trivial),
+        (by first | rfl | trivial), (by first | rfl | trivial), by rw [hfw]⟩
   | setBreaks bps =>
     simp only [RescObj.step] at hne ⊢
-    cases hcmp : rescCompute o.tab bps with
-    | none => rw [hcmp] at hne; exact absurd rfl hne
-    | some fw =>
-      have hfw := rescCompute_some o.tab bps fw hcmp
-      simp only [nextTab, nextBps, rescSpec]
-      refine ⟨⟨hfw, by simp, by simp, by simp⟩, (by first | rfl | trivial), (by first | rfl | trivial), by rw [hfw]⟩
+    by_cases hok : breaksOk o.tab.T bps = true
+    · simp only [hok, Bool.not_true, Bool.false_eq_true, if_false] at hne ⊢
+      cases hcmp : rescCompute o.tab bps with
+      | none => rw [hcmp] at hne; exact absurd rfl hne
+      | some fw =>
+        have hfw := rescCompute_some o.tab bps fw hcmp
+        simp only [nextTab, nextBps, nextDv, nextD2v, rescSpec]
+        refine ⟨⟨hfw, by simp, by simp, by simp⟩, (by first | rfl | trivial), (by first | rfl | trivial),
+          (by first | rfl | trivial), (by first | rfl | trivial), by rw [hfw]⟩
+    · have hok' : breaksOk o.tab.T bps = false := by simpa using hok
+      simp only [hok', Bool.not_false, if_true] at hne
+      exact absurd rfl hne
   | logLik =>
-    simp only [RescObj.step, nextTab, nextBps, rescSpec]
-    exact ⟨⟨h1, h2, h3, h4⟩, (by first | rfl | trivial), (by first | rfl | trivial), by rw [h1]⟩
+    simp only [RescObj.step, nextTab, nextBps, nextDv, nextD2v, rescSpec]
+    exact ⟨⟨h1, h2, h3, h4⟩, (by first | rfl | trivial), (by first | rfl | trivial), (by first | rfl | trivial),
+      (by first | rfl | trivial), by rw [h1]⟩
   | posterior =>
-    simp only [RescObj.step, nextTab, nextBps, rescSpec]
+    simp only [RescObj.step, nextTab, nextBps, nextDv, nextD2v, rescSpec]
     by_cases hb : o.backUpToDate = true
     · simp only [hb, if_true]
-      refine ⟨⟨h1, h2, h3, h4⟩, (by first | rfl | trivial), (by first | rfl | trivial), ?_⟩
+      refine ⟨⟨h1, h2, h3, h4⟩, (by first | rfl | trivial), (by first | rfl | trivial), (by first | rfl | trivial),
+        (by first | rfl | trivial), ?_⟩
       rw [h2 hb, h1]; rfl
     · simp only [hb, if_false, Bool.false_eq_true]
-      refine ⟨⟨h1, fun _ => rfl, h3, h4⟩, (by first | rfl | trivial), (by first | rfl | trivial), ?_⟩
+      refine ⟨⟨h1, fun _ => rfl, h3, h4⟩, (by first | rfl | trivial), (by first | rfl | trivial), (by first | rfl | trivial),
+        (by first | rfl | trivial), ?_⟩
       simp only [rescPosterior]; rw [h1]
+  | posteriorInto buf append =>
+    obtain ⟨r1, r2, r3, r5, r6, r4⟩ := RescObj.refreshBack_spec o ⟨h1, h2, h3, h4⟩
+    simp only [RescObj.step, nextTab, nextBps, nextDv, nextD2v, rescSpec]
+    exact ⟨r1, r2, r3, r5, r6, by rw [r4]⟩
+  | posteriorSite site =>
+    obtain ⟨r1, r2, r3, r5, r6, r4⟩ := RescObj.refreshBack_spec o ⟨h1, h2, h3, h4⟩
+    simp only [RescObj.step, nextTab, nextBps, nextDv, nextD2v, rescSpec]
+    exact ⟨r1, r2, r3, r5, r6, by rw [r4]⟩
+  | siteLik site =>
+    obtain ⟨r1, r2, r3, r5, r6, r4⟩ := RescObj.refreshBack_spec o ⟨h1, h2, h3, h4⟩
+    simp only [RescObj.step, nextTab, nextBps, nextDv, nextD2v, rescSpec]
+    exact ⟨r1, r2, r3, r5, r6, by rw [r4]⟩
+  | siteLiks =>
+    obtain ⟨r1, r2, r3, r5, r6, r4⟩ := RescObj.refreshBack_spec o ⟨h1, h2, h3, h4⟩
+    simp only [RescObj.step, nextTab, nextBps, nextDv, nextD2v, rescSpec]
+    exact ⟨r1, r2, r3, r5, r6, by rw [r4]⟩
   | d1 var =>
     have hv : var ≠ "" := fun h => hvar.1 (by rw [h])
-    simp only [RescObj.step, nextTab, nextBps, rescSpec]
+    simp only [RescObj.step, nextTab, nextBps, nextDv, nextD2v, rescSpec]
     by_cases hd : var = o.dVar
     · have : (var != o.dVar) = false := by simp [hd]
       simp only [this, Bool.false_eq_true, if_false]
-      refine ⟨⟨h1, h2, h3, h4⟩, (by first | rfl | trivial), (by first | rfl | trivial), ?_⟩
+      refine ⟨⟨h1, h2, h3, h4⟩, (by first | rfl | trivial), (by first | rfl | trivial), hd.symm, (by first | rfl | trivial), ?_⟩
       rw [h3 (hd ▸ hv), ← hd, h1]
     · have : (var != o.dVar) = true := by simp [hd]
       simp only [this, if_true]
-      refine ⟨⟨h1, h2, fun _ => rfl, h4⟩, (by first | rfl | trivial), (by first | rfl | trivial), ?_⟩
+      refine ⟨⟨h1, h2, fun _ => rfl, h4⟩, (by first | rfl | trivial), (by first | rfl | trivial), (by first | rfl | trivial),
+        (by first | rfl | trivial), ?_⟩
       rw [h1]
   | d2 var =>
     have hv : var ≠ "" := fun h => hvar.2 (by rw [h])
-    simp only [RescObj.step, nextTab, nextBps, rescSpec]
+    simp only [RescObj.step, nextTab, nextBps, nextDv, nextD2v, rescSpec]
     by_cases hd2 : var = o.d2Var
     · have : (var != o.d2Var) = false := by simp [hd2]
       simp only [this, Bool.false_eq_true, if_false]
-      refine ⟨⟨h1, h2, h3, h4⟩, (by first | rfl | trivial), (by first | rfl | trivial), ?_⟩
+      refine ⟨⟨h1, h2, h3, h4⟩, (by first | rfl | trivial), (by first | rfl | trivial), (by first | rfl | trivial), hd2.symm, ?_⟩
       rw [h4 (hd2 ▸ hv), ← hd2, h1]
     · have hb2 : (var != o.d2Var) = true := by simp [hd2]
       simp only [hb2, if_true]
@@ -116,79 +166,260 @@ theorem RescObj.step_spec (o : RescObj α) (hc : o.Consistent) (op : Op α)
         simp only [hb1, Bool.false_eq_true, if_false]
         have hdfw := h3 (hd ▸ hv)
         rw [← hd] at hdfw
-        refine ⟨⟨h1, h2, h3, fun _ => ?_⟩, (by first | rfl | trivial), (by first | rfl | trivial), ?_⟩
+        refine ⟨⟨h1, h2, h3, fun _ => ?_⟩, (by first | rfl | trivial), (by first | rfl | trivial), hd.symm, (by first | rfl | trivial), ?_⟩
         · simp only; rw [hdfw]
         · rw [hdfw, h1]
       · have hb1 : (var != o.dVar) = true := by simp [hd]
         simp only [hb1, if_true]
-        refine ⟨⟨h1, h2, fun _ => rfl, fun _ => rfl⟩, (by first | rfl | trivial), (by first | rfl | trivial), ?_⟩
+        refine ⟨⟨h1, h2, fun _ => rfl, fun _ => rfl⟩, (by first | rfl | trivial), (by first | rfl | trivial),
+          (by first | rfl | trivial), (by first | rfl | trivial), ?_⟩
         rw [h1]
+  | dSite site =>
+    have hdv : o.dVar ≠ "" := hnm
+    simp only [RescObj.step, nextTab, nextBps, nextDv, nextD2v, rescSpec]
+    refine ⟨⟨h1, h2, h3, h4⟩, (by first | rfl | trivial), (by first | rfl | trivial), (by first | rfl | trivial),
+      (by first | rfl | trivial), ?_⟩
+    rw [h3 hdv, h1]
+  | d2Site site =>
+    have hdv : o.dVar ≠ "" := hnm.1
+    have hd2v : o.d2Var ≠ "" := hnm.2
+    simp only [RescObj.step, nextTab, nextBps, nextDv, nextD2v, rescSpec]
+    refine ⟨⟨h1, h2, h3, h4⟩, (by first | rfl | trivial), (by first | rfl | trivial), (by first | rfl | trivial),
+      (by first | rfl | trivial), ?_⟩
+    rw [h4 hd2v, h3 hdv, h1]
+
+theorem derivNamesOk_cons (dv d2v : String) (op : Op α) (ops : List (Op α)) (h : derivNamesOk dv d2v (op :: ops) = true) :
+    namesOkAt dv d2v op ∧ derivNamesOk (nextDv dv d2v op) (nextD2v d2v op) ops = true := by
+  simp only [derivNamesOk, Bool.and_eq_true] at h
+  refine ⟨?_, h.2⟩
+  have h1 := h.1
+  cases op <;> simp_all [namesOkAt]
 
 theorem RescObj.run_spec (o : RescObj α) (hc : o.Consistent) (ops : List (Op α))
-    (hne : ∀ a ∈ o.run ops, a ≠ Ans.exc) (hvar : ∀ op ∈ ops, op ≠ Op.d1 "" ∧ op ≠ Op.d2 "") :
-    o.run ops = rescSpecRun o.tab o.bps ops := by
+    (hne : ∀ a ∈ o.run ops, a ≠ Ans.exc) (hvar : ∀ op ∈ ops, op ≠ Op.d1 "" ∧ op ≠ Op.d2 "")
+    (hnm : derivNamesOk o.dVar o.d2Var ops = true) :
+    o.run ops = rescSpecRun o.tab o.bps o.dVar o.d2Var ops := by
   induction ops generalizing o with
   | nil => rfl
   | cons op ops ih =>
     simp only [RescObj.run, rescSpecRun]
-    have hs := RescObj.step_spec o hc op (hne _ (by simp [RescObj.run])) (hvar op (by simp))
-    obtain ⟨hc', ht, hb, ha⟩ := hs
-    rw [ha, ih (o.step op).1 hc' (fun a h => hne a (by simp [RescObj.run, h])) (fun op' h => hvar op' (by simp [h])), ht, hb]
+    obtain ⟨hn1, hn2⟩ := derivNamesOk_cons _ _ op ops hnm
+    have hs := RescObj.step_spec o hc op (hne _ (by simp [RescObj.run])) (hvar op (by simp)) hn1
+    obtain ⟨hc', ht, hb, hdv, hd2v, ha⟩ := hs
+    rw [ha, ih (o.step op).1 hc' (fun a h => hne a (by simp [RescObj.run, h])) (fun op' h => hvar op' (by simp [h]))
+      (by rw [hdv, hd2v]; exact hn2), ht, hb, hdv, hd2v]
 
 /-! ### log-sum class -/
+
+section LogSum
+variable [HasIsInf α]
 
 def LogObj.run (o : LogObj α) : List (Op α) → List (Ans α)
   | [] => []
   | op :: ops => (o.step op).2 :: LogObj.run (o.step op).1 ops
 
-def logSpecRun (t : Tables α) (bps : List Nat) : List (Op α) → List (Ans α)
+def logSpecRun (t : Tables α) (bps : List Nat) (dv d2v : String) : List (Op α) → List (Ans α)
   | [] => []
-  | op :: ops => logSpec (nextTab t op) (nextBps bps op) op :: logSpecRun (nextTab t op) (nextBps bps op) ops
+  | op :: ops => logSpec (nextTab t op) (nextBps bps op) dv d2v op
+      :: logSpecRun (nextTab t op) (nextBps bps op) (nextDv dv d2v op) (nextD2v d2v op) ops
 
 def LogObj.Consistent (o : LogObj α) : Prop :=
-  o.fw = logCompute o.tab o.bps ∧ (o.backUpToDate = true → o.back = logBackward o.tab.p o.tab.es o.bps)
+  o.fw = logCompute o.tab o.bps
+  ∧ (o.backUpToDate = true → o.back = logBackward o.tab.p o.tab.es o.bps)
+  ∧ (o.dVar ≠ "" → logDForward o.tab.p o.tab.e0 o.tab.es (o.tab.dE o.dVar).1 (o.tab.dE o.dVar).2 o.bps o.fw = some o.dfw)
+  ∧ (o.d2Var ≠ "" → ∃ d, logDForward o.tab.p o.tab.e0 o.tab.es (o.tab.dE o.d2Var).1 (o.tab.dE o.d2Var).2 o.bps o.fw = some d
+        ∧ logD2Forward o.tab.p o.tab.e0 o.tab.es (o.tab.dE o.d2Var).1 (o.tab.dE o.d2Var).2
+            (o.tab.d2E o.d2Var).1 (o.tab.d2E o.d2Var).2 o.bps o.fw d = some o.d2fw)
 
-theorem LogObj.build_consistent (t : Tables α) : (LogObj.build t).Consistent ∧ (LogObj.build t).tab = t ∧ (LogObj.build t).bps = [] :=
-  ⟨⟨rfl, by simp [LogObj.build]⟩, rfl, rfl⟩
+theorem LogObj.build_consistent (t : Tables α) :
+    (LogObj.build t).Consistent ∧ (LogObj.build t).tab = t ∧ (LogObj.build t).bps = []
+      ∧ (LogObj.build t).dVar = "" ∧ (LogObj.build t).d2Var = "" :=
+  ⟨⟨rfl, by simp [LogObj.build], by simp [LogObj.build], by simp [LogObj.build]⟩, rfl, rfl, rfl, rfl⟩
 
-theorem LogObj.step_spec (o : LogObj α) (hc : o.Consistent) (op : Op α) :
+theorem LogObj.refreshBack_spec (o : LogObj α) (hc : o.Consistent) :
+    o.refreshBack.Consistent ∧ o.refreshBack.tab = o.tab ∧ o.refreshBack.bps = o.bps
+      ∧ o.refreshBack.dVar = o.dVar ∧ o.refreshBack.d2Var = o.d2Var
+      ∧ o.refreshBack.fw = logCompute o.tab o.bps ∧ o.refreshBack.back = logBackward o.tab.p o.tab.es o.bps := by
+  obtain ⟨h1, h2, h3, h4⟩ := hc
+  unfold LogObj.refreshBack
+  by_cases hb : o.backUpToDate = true
+  · simp only [hb, if_true]
+    exact ⟨⟨h1, h2, h3, h4⟩, (by first | rfl | trivial), (by first | rfl | trivial), (by first | rfl | trivial),
+      (by first | rfl | trivial), h1, h2 hb⟩
+  · simp only [hb, if_false, Bool.false_eq_true]
+    exact ⟨⟨h1, fun _ => rfl, h3, h4⟩, (by first | rfl | trivial), (by first | rfl | trivial), (by first | rfl | trivial),
+      (by first | rfl | trivial), h1, (by first | rfl | trivial)⟩
+
+/-- the part of the invariant `getFirstOrderDerivative` depends on -/
+def LogObj.Consistent1 (o : LogObj α) : Prop :=
+  o.fw = logCompute o.tab o.bps
+  ∧ (o.backUpToDate = true → o.back = logBackward o.tab.p o.tab.es o.bps)
+  ∧ (o.dVar ≠ "" → logDForward o.tab.p o.tab.e0 o.tab.es (o.tab.dE o.dVar).1 (o.tab.dE o.dVar).2 o.bps o.fw = some o.dfw)
+
+/-- `getFirstOrderDerivative` when it does not raise -/
+theorem LogObj.firstOrder_spec (o : LogObj α) (hc : o.Consistent1) (var : String) (hv : var ≠ "")
+    (hne : (o.firstOrder var).2 ≠ none) :
+    (o.firstOrder var).1.Consistent1 ∧ (o.firstOrder var).1.tab = o.tab ∧ (o.firstOrder var).1.bps = o.bps
+      ∧ (o.firstOrder var).1.fw = o.fw
+      ∧ (o.firstOrder var).1.dVar = var ∧ (o.firstOrder var).1.d2Var = o.d2Var ∧ (o.firstOrder var).1.d2fw = o.d2fw
+      ∧ logDForward o.tab.p o.tab.e0 o.tab.es (o.tab.dE var).1 (o.tab.dE var).2 o.bps o.fw = some (o.firstOrder var).1.dfw
+      ∧ (o.firstOrder var).2 = some (-(o.firstOrder var).1.dfw.dLogLik) := by
+  obtain ⟨h1, h2, h3⟩ := hc
+  unfold LogObj.firstOrder at hne ⊢
+  by_cases hd : var = o.dVar
+  · have hb : (var != o.dVar) = false := by simp [hd]
+    simp only [hb, Bool.false_eq_true, if_false]
+    have := h3 (hd ▸ hv)
+    exact ⟨⟨h1, h2, h3⟩, (by first | rfl | trivial), (by first | rfl | trivial), (by first | rfl | trivial), hd.symm, (by first | rfl | trivial), (by first | rfl | trivial), by rw [hd]; exact this, (by first | rfl | trivial)⟩
+  · have hb : (var != o.dVar) = true := by simp [hd]
+    simp only [hb, if_true] at hne ⊢
+    cases hcmp : logDForward o.tab.p o.tab.e0 o.tab.es (o.tab.dE var).1 (o.tab.dE var).2 o.bps o.fw with
+    | none => rw [hcmp] at hne; exact absurd rfl hne
+    | some d => exact ⟨⟨h1, h2, fun _ => hcmp⟩, rfl, rfl, rfl, rfl, rfl, rfl, rfl, rfl⟩
+
+theorem LogObj.step_spec (o : LogObj α) (hc : o.Consistent) (op : Op α)
+    (hne : (o.step op).2 ≠ .exc) (hvar : op ≠ .d1 "" ∧ op ≠ .d2 "") (hnm : namesOkAt o.dVar o.d2Var op) :
     (o.step op).1.Consistent ∧ (o.step op).1.tab = nextTab o.tab op ∧ (o.step op).1.bps = nextBps o.bps op
-      ∧ (o.step op).2 = logSpec (nextTab o.tab op) (nextBps o.bps op) op := by
-  obtain ⟨h1, h2⟩ := hc
+      ∧ (o.step op).1.dVar = nextDv o.dVar o.d2Var op ∧ (o.step op).1.d2Var = nextD2v o.d2Var op
+      ∧ (o.step op).2 = logSpec (nextTab o.tab op) (nextBps o.bps op) o.dVar o.d2Var op := by
+  have hc0 := hc
+  obtain ⟨h1, h2, h3, h4⟩ := hc
   cases op with
-  | setTables t => exact ⟨⟨rfl, by simp [LogObj.step]⟩, (by first | rfl | trivial), (by first | rfl | trivial), rfl⟩
-  | setBreaks bps => exact ⟨⟨rfl, by simp [LogObj.step]⟩, (by first | rfl | trivial), (by first | rfl | trivial), rfl⟩
-  | logLik => exact ⟨⟨h1, h2⟩, (by first | rfl | trivial), (by first | rfl | trivial), by simp only [LogObj.step, logSpec, nextTab, nextBps]; rw [h1]⟩
+  | setTables t =>
+    exact ⟨⟨rfl, by simp [LogObj.step], by simp [LogObj.step], by simp [LogObj.step]⟩, rfl, rfl, rfl, rfl, rfl⟩
+  | setBreaks bps =>
+    simp only [LogObj.step] at hne ⊢
+    by_cases hok : breaksOk o.tab.T bps = true
+    · simp only [hok, Bool.not_true, Bool.false_eq_true, if_false]
+      exact ⟨⟨rfl, by simp, by simp, by simp⟩, rfl, rfl, rfl, rfl, rfl⟩
+    · have hok' : breaksOk o.tab.T bps = false := by simpa using hok
+      simp only [hok', Bool.not_false, if_true] at hne
+      exact absurd rfl hne
+  | logLik =>
+    exact ⟨⟨h1, h2, h3, h4⟩, rfl, rfl, rfl, rfl, by simp only [LogObj.step, logSpec, nextTab, nextBps]; rw [h1]⟩
   | posterior =>
-    simp only [LogObj.step, nextTab, nextBps, logSpec, logPosterior]
+    simp only [LogObj.step, nextTab, nextBps, nextDv, nextD2v, logSpec, logPosterior]
     by_cases hb : o.backUpToDate = true
     · simp only [hb, if_true]
-      refine ⟨⟨h1, h2⟩, (by first | rfl | trivial), (by first | rfl | trivial), ?_⟩
+      refine ⟨⟨h1, h2, h3, h4⟩, (by first | rfl | trivial), (by first | rfl | trivial), (by first | rfl | trivial),
+        (by first | rfl | trivial), ?_⟩
       rw [h2 hb, h1]
     · simp only [hb, if_false, Bool.false_eq_true]
-      refine ⟨⟨h1, fun _ => rfl⟩, (by first | rfl | trivial), (by first | rfl | trivial), ?_⟩
+      refine ⟨⟨h1, fun _ => rfl, h3, h4⟩, (by first | rfl | trivial), (by first | rfl | trivial), (by first | rfl | trivial),
+        (by first | rfl | trivial), ?_⟩
       rw [h1]
-  | d1 var => exact ⟨⟨h1, h2⟩, (by first | rfl | trivial), (by first | rfl | trivial), rfl⟩
-  | d2 var => exact ⟨⟨h1, h2⟩, (by first | rfl | trivial), (by first | rfl | trivial), rfl⟩
+  | posteriorInto buf append =>
+    obtain ⟨r1, r2, r3, r6, r7, r4, r5⟩ := LogObj.refreshBack_spec o hc0
+    simp only [LogObj.step, nextTab, nextBps, nextDv, nextD2v, logSpec, logPosterior]
+    exact ⟨r1, r2, r3, r6, r7, by rw [r4, r5, r3]⟩
+  | posteriorSite site =>
+    obtain ⟨r1, r2, r3, r6, r7, r4, r5⟩ := LogObj.refreshBack_spec o hc0
+    simp only [LogObj.step, nextTab, nextBps, nextDv, nextD2v, logSpec, logPosteriorSite]
+    exact ⟨r1, r2, r3, r6, r7, by rw [r4, r5, r3]⟩
+  | siteLik site =>
+    obtain ⟨r1, r2, r3, r6, r7, r4, r5⟩ := LogObj.refreshBack_spec o hc0
+    simp only [LogObj.step, nextTab, nextBps, nextDv, nextD2v, logSpec, logPosteriorSite]
+    exact ⟨r1, r2, r3, r6, r7, by rw [r4, r5, r3]⟩
+  | siteLiks =>
+    obtain ⟨r1, r2, r3, r6, r7, r4, r5⟩ := LogObj.refreshBack_spec o hc0
+    simp only [LogObj.step, nextTab, nextBps, nextDv, nextD2v, logSpec, logPosterior]
+    exact ⟨r1, r2, r3, r6, r7, by rw [r4, r5, r3]⟩
+  | d1 var =>
+    have hv : var ≠ "" := fun h => hvar.1 (by rw [h])
+    have hne' : (o.firstOrder var).2 ≠ none := by
+      intro h; apply hne; simp only [LogObj.step, h]
+    obtain ⟨⟨c1, c2, c3⟩, f2, f3, f4, f5, f6, f6', f7, f8⟩ := LogObj.firstOrder_spec o ⟨h1, h2, h3⟩ var hv hne'
+    simp only [LogObj.step, nextTab, nextBps, nextDv, nextD2v, logSpec]
+    refine ⟨⟨c1, c2, c3, ?_⟩, f2, f3, f5, f6, ?_⟩
+    · rw [f6, f2, f3, f4, f6']; exact h4
+    · rw [f8, ← h1, f7]
+  | d2 var =>
+    have hv : var ≠ "" := fun h => hvar.2 (by rw [h])
+    simp only [LogObj.step, nextTab, nextBps, nextDv, nextD2v, logSpec] at hne ⊢
+    by_cases hd2 : var = o.d2Var
+    · have hb : (var != o.d2Var) = false := by simp [hd2]
+      simp only [hb, Bool.false_eq_true, if_false]
+      obtain ⟨d, hd, hdd⟩ := h4 (hd2 ▸ hv)
+      refine ⟨⟨h1, h2, h3, h4⟩, (by first | rfl | trivial), (by first | rfl | trivial), (by first | rfl | trivial), hd2.symm, ?_⟩
+      rw [← h1, hd2, hd]; simp only; rw [hdd]
+    · have hb : (var != o.d2Var) = true := by simp [hd2]
+      simp only [hb, if_true] at hne ⊢
+      have hc1 : ({ o with d2Var := var } : LogObj α).Consistent1 := ⟨h1, h2, h3⟩
+      have hne' : (({ o with d2Var := var } : LogObj α).firstOrder var).2 ≠ none := by
+        intro h; apply hne; rw [h]
+      obtain ⟨⟨c1, c2, c3⟩, f2, f3, f4, f5, f6, f6', f7, f8⟩ := LogObj.firstOrder_spec _ hc1 var hv hne'
+      simp only at f2 f3 f4 f6 f7
+      generalize (({ o with d2Var := var } : LogObj α).firstOrder var) = r at c1 c2 c3 f2 f3 f4 f5 f6 f7 f8 hne ⊢
+      obtain ⟨⟨tab1, bps1, fw1, back1, bu1, dv1, dfw1, d2v1, d2fw1⟩, a⟩ := r
+      simp only at c1 c2 c3 f2 f3 f4 f5 f6 f7 f8 hne ⊢
+      subst f8 f2 f3 f4 f5 f6
+      simp only at hne ⊢
+      cases hcmp : logD2Forward o.tab.p o.tab.e0 o.tab.es (o.tab.dE d2v1).1 (o.tab.dE d2v1).2 (o.tab.d2E d2v1).1 (o.tab.d2E d2v1).2 o.bps o.fw dfw1 with
+      | none => rw [hcmp] at hne; exact absurd rfl hne
+      | some d2 =>
+        refine ⟨⟨c1, c2, c3, fun _ => ⟨_, f7, hcmp⟩⟩, (by first | rfl | trivial), (by first | rfl | trivial),
+          (by first | rfl | trivial), (by first | rfl | trivial), ?_⟩
+        rw [← h1, f7]; simp only; rw [hcmp]
+  | dSite site =>
+    have hdv : o.dVar ≠ "" := hnm
+    simp only [LogObj.step, nextTab, nextBps, nextDv, nextD2v, logSpec]
+    refine ⟨⟨h1, h2, h3, h4⟩, (by first | rfl | trivial), (by first | rfl | trivial), (by first | rfl | trivial),
+      (by first | rfl | trivial), ?_⟩
+    rw [← h1, h3 hdv]
+  | d2Site site =>
+    have hdv : o.dVar ≠ "" := hnm.1
+    have hd2v : o.d2Var ≠ "" := hnm.2
+    obtain ⟨d, hd, hdd⟩ := h4 hd2v
+    simp only [LogObj.step, nextTab, nextBps, nextDv, nextD2v, logSpec]
+    refine ⟨⟨h1, h2, h3, h4⟩, (by first | rfl | trivial), (by first | rfl | trivial), (by first | rfl | trivial),
+      (by first | rfl | trivial), ?_⟩
+    rw [← h1, hd, h3 hdv]; simp only; rw [hdd]
 
-theorem LogObj.run_spec (o : LogObj α) (hc : o.Consistent) (ops : List (Op α)) :
-    o.run ops = logSpecRun o.tab o.bps ops := by
+theorem LogObj.run_spec (o : LogObj α) (hc : o.Consistent) (ops : List (Op α))
+    (hne : ∀ a ∈ o.run ops, a ≠ Ans.exc) (hvar : ∀ op ∈ ops, op ≠ Op.d1 "" ∧ op ≠ Op.d2 "")
+    (hnm : derivNamesOk o.dVar o.d2Var ops = true) :
+    o.run ops = logSpecRun o.tab o.bps o.dVar o.d2Var ops := by
   induction ops generalizing o with
   | nil => rfl
   | cons op ops ih =>
     simp only [LogObj.run, logSpecRun]
-    obtain ⟨hc', ht, hb, ha⟩ := LogObj.step_spec o hc op
-    rw [ha, ih (o.step op).1 hc', ht, hb]
+    obtain ⟨hn1, hn2⟩ := derivNamesOk_cons _ _ op ops hnm
+    obtain ⟨hc', ht, hb, hdv, hd2v, ha⟩ := LogObj.step_spec o hc op (hne _ (by simp [LogObj.run])) (hvar op (by simp)) hn1
+    rw [ha, ih (o.step op).1 hc' (fun a h => hne a (by simp [LogObj.run, h])) (fun op' h => hvar op' (by simp [h]))
+      (by rw [hdv, hd2v]; exact hn2), ht, hb, hdv, hd2v]
+
+end LogSum
+
+/-! ### the `append` option of the all-sites posterior accessor -/
+
+theorem RescObj.posteriorInto_of_posterior (o : RescObj α) (buf : List (List α)) (append : Bool) (m : List (List α))
+    (h : (o.step .posterior).2 = .mat m) :
+    (o.step (.posteriorInto buf append)).2 = .mat ((if append then buf else []) ++ m) := by
+  have h1 : (o.step .posterior).2 = .mat (posteriorOf o.refreshBack.fw.lik o.refreshBack.back) := rfl
+  have h2 : (o.step (.posteriorInto buf append)).2
+      = .mat ((if append then buf else []) ++ posteriorOf o.refreshBack.fw.lik o.refreshBack.back) := rfl
+  rw [h1] at h
+  rw [h2, Ans.mat.inj h]
+
+theorem LogObj.posteriorInto_of_posterior [HasIsInf α] (o : LogObj α) (buf : List (List α)) (append : Bool)
+    (m : List (List α)) (h : (o.step .posterior).2 = .mat m) :
+    (o.step (.posteriorInto buf append)).2 = .mat ((if append then buf else []) ++ m) := by
+  have h1 : (o.step .posterior).2 = (match logPosteriorOf o.refreshBack.fw o.refreshBack.back o.refreshBack.bps with
+      | some m => Ans.mat m | none => Ans.ub) := rfl
+  have h2 : (o.step (.posteriorInto buf append)).2
+      = (match logPosteriorOf o.refreshBack.fw o.refreshBack.back o.refreshBack.bps with
+          | some m => Ans.mat ((if append then buf else []) ++ m) | none => Ans.ub) := rfl
+  rw [h1] at h
+  rw [h2]
+  cases hp : logPosteriorOf o.refreshBack.fw o.refreshBack.back o.refreshBack.bps with
+  | none => rw [hp] at h; cases h
+  | some m' => rw [hp] at h; rw [Ans.mat.inj h]
 
 /-! ### low-memory class -/
 
 def LowObj.run (o : LowObj α) : List (Op α) → List (Ans α)
   | [] => []
   | op :: ops => (o.step op).2 :: LowObj.run (o.step op).1 ops
-
-def lowSpec (t : Tables α) (maxSize : Nat) (bps : List Nat) : Op α → Ans α
-  | .posterior | .d1 _ | .d2 _ => .exc
-  | _ => .val (lowCompute t maxSize bps)
 
 def lowSpecRun (t : Tables α) (maxSize : Nat) (bps : List Nat) : List (Op α) → List (Ans α)
   | [] => []
@@ -206,11 +437,25 @@ theorem LowObj.run_spec (o : LowObj α) (hc : o.logLik = lowCompute o.tab o.maxS
     simp only [LowObj.run, lowSpecRun]
     cases op with
     | setTables t => rw [ih (o.step (.setTables t)).1 rfl hd0 hd20 hrest hvar']; rfl
-    | setBreaks b => rw [ih (o.step (.setBreaks b)).1 rfl hd0 hd20 hrest hvar']; rfl
+    | setBreaks b =>
+      by_cases hok : breaksOk o.tab.T b = true
+      · have hst : o.step (.setBreaks b) = ({ o with bps := b, logLik := lowCompute o.tab o.maxSize b }, .val (lowCompute o.tab o.maxSize b)) := by
+          simp only [LowObj.step, hok, Bool.not_true, Bool.false_eq_true, if_false]
+        rw [hst] at hrest ⊢
+        rw [ih ({ o with bps := b, logLik := lowCompute o.tab o.maxSize b } : LowObj α) rfl hd0 hd20 hrest hvar']; rfl
+      · have hok' : breaksOk o.tab.T b = false := by simpa using hok
+        simp only [LowObj.step, hok', Bool.not_false, if_true] at h0
+        exact absurd rfl h0
     | logLik =>
       rw [ih (o.step .logLik).1 hc hd0 hd20 hrest hvar']
       simp only [LowObj.step, lowSpec, nextTab, nextBps]; rw [hc]
     | posterior => exact absurd rfl h0
+    | posteriorInto _ _ => exact absurd rfl h0
+    | posteriorSite _ => exact absurd rfl h0
+    | siteLik _ => exact absurd rfl h0
+    | siteLiks => exact absurd rfl h0
+    | dSite _ => exact absurd rfl h0
+    | d2Site _ => exact absurd rfl h0
     | d1 var =>
       -- a `d1` with a non-empty name raises (the name is stored, then NotImplementedException)
       have hv : var ≠ "" := fun h => (hvar (.d1 var) (by simp)).1 (by rw [h])
